@@ -672,7 +672,11 @@ def special_structs():
     withop = Struct("WOp", [("r", OpaqueRef()), ("q", OpaqueRef(optional=True)), ("n", Prim("u16"))])
     withneg = Struct("WNeg", [("e", ENN), ("z", Prim("i64")), ("c", Prim("DiplomatChar"))])
     outst = Struct("OutSt", [("b", OpaqueBox()), ("o", OpaqueBox(optional=True)), ("n", Prim("i32"))], out=True)
-    return [ST, nest, nest2, withopt, withsl, withop, withneg, outst]
+    # fields whose names start with an underscore (reserved / padding fields of a C struct carried over)
+    withund = Struct("WUnd", [("a", Prim("u8")), ("_b", Prim("u8")), ("c", Prim("u8")), ("_pad", Prim("u16")), ("e", Prim("u32")), ("_z", Prim("u32"))])
+    # a struct marked as an error type that also travels by value as a parameter and as a plain return value
+    witherr = Struct("WErr", [("code", Prim("u8")), ("n", Prim("u32"))], attrs="    #[diplomat::attr(auto, error)]\n")
+    return [ST, nest, nest2, withopt, withsl, withop, withneg, outst, withund, witherr]
 
 
 def rust_ffi_type(t):
